@@ -208,8 +208,8 @@ func (u *Unit) zeroOf(s Sort) string {
 	case SFP:
 		return "(_ +zero 11 53)"
 	}
-	if _, vs, ok := s.isArray(); ok && vs == SBool {
-		return fmt.Sprintf("((as const %s) false)", s)
+	if _, vs, ok := s.isArray(); ok {
+		return fmt.Sprintf("((as const %s) %s)", s, u.zeroOf(vs))
 	}
 	return "nil"
 }
